@@ -15,6 +15,7 @@ Selectors:   struct X | enum X | const X | static X | type X | trait X | fn x
              impl <normalised impl header> :: fn x         (a method of that impl block)
 Options (after the selector, separated by `::`):
    selfmut            rule E5: `&self` -> `&mut self`
+   deasync            rule E10: `async fn` -> `fn`, `.await` erased
    ret=<name>         rule E2: `-> T` becomes `-> (name: T)`
    external_body      emit `#[verifier::external_body]` and keep signature + contract only
                       (body replaced by `{ unimplemented!() }`): a *stub carrying the contract*
@@ -687,6 +688,19 @@ def transform_fn(text, opts, blk, log, what, in_trait_impl):
         text = rule_E6_logs(text, log)
     if "keepvis" not in opts:
         text = rule_E4_vis(text, "fn", in_trait_impl, log)
+    if "deasync" in opts:
+        # rule E10: sequential projection of async: `async fn` -> `fn`, `.await` erased
+        m = mask(text)
+        n_await = len(re.findall(r"\.\s*await\b", m))
+        text2 = re.sub(r"\basync\s+fn\b", "fn", text, count=1)
+        out, i = [], 0
+        for mt in re.finditer(r"\.\s*await\b", mask(text2)):
+            out.append(text2[i:mt.start()])
+            out.append(" " * 0 + "\n" * text2[mt.start():mt.end()].count("\n"))
+            i = mt.end()
+        out.append(text2[i:])
+        text = "".join(out)
+        log.append(f"E10 async fn -> fn, {n_await} `.await` erased")
     sig, body = fn_split(text)
     if body is None:
         raise ExtractError("bad-template", f"{what}: no body")
